@@ -606,6 +606,119 @@ Proof.
   - intros Hd. specialize (Hbase Hd). lia.
 Qed.
 
+(* ---- packet lifetime instead of a bound on the history ----
+   A packet's Ns / Nr denotes a submission index only modulo 2^16.  "Fresh" = among the indices it can denote there is
+   one that is less than 2^15 away from where the receiving side currently is:
+   data: a submission j of the sender with that Ns and that body, less than 2^15 away from the receiver's next expected
+         index;
+   acknowledgement: a k <= what the acknowledging side has been handed, with that Nr, less than 2^15 away from every
+         message still in the acknowledged side's queue.
+   With fewer than 2^15 submissions every packet the peer wrote is fresh (bounded_is_fresh); in general this says that no
+   packet older than 2^15 submissions is still in the network and fewer than 2^15 messages are queued. *)
+Definition fresh_data (o : Z) (S R : endpoint) (pk : pkt) : Prop :=
+  forall b, k_body pk = Some b ->
+  exists j, (j < length (e_sub S))%nat /\ k_ns pk = u16 (o + Z.of_nat j) /\ nth_error (e_sub S) j = Some b /\
+            -32768 < Z.of_nat j - Z.of_nat (length (e_del R)) < 32768.
+Definition fresh_ack (o : Z) (S R : endpoint) (pk : pkt) : Prop :=
+  exists k, (k <= length (e_del R))%nat /\ k_nr pk = u16 (o + Z.of_nat k) /\
+    forall h, (length (e_sub S) - length (c_q (e_ch S)) <= h < length (e_sub S))%nat ->
+              -32768 < Z.of_nat h - Z.of_nat k < 32768.
+
+Lemma seq_less_near o h k : -32768 < h - k < 32768 -> seq_less (u16 (o + h)) (u16 (o + k)) = (h <? k).
+Proof. intros H. rewrite seq_less_arith. unfold u16. lia. Qed.
+
+Lemma u16_inj_near o i k : -65536 < i - k < 65536 -> u16 (o + i) = u16 (o + k) -> i = k.
+Proof. unfold u16. lia. Qed.
+
+Lemma deliver_sender_fresh o S R pk now fj rc S' ob :
+  dir_inv o S R -> In pk (e_sent R) -> fresh_ack o S R pk ->
+  ep_deliver false S pk now fj rc = (S', ob) -> dir_inv o S' R.
+Proof.
+  intros [Hns [pre Hq] Hnr [rest Hp] HsS HsR Hack Hbase] Hpk Hb H. unfold ep_deliver in H.
+  destruct (dispatch false (e_f S) (e_ch S) pk now fj rc) as [[[c' o'] er] h] eqn:E.
+  inversion H; subst; clear H.
+  apply dispatch_repaired_spec in E. destruct E as (A & (popped & rst & Q1 & Q2 & Q3) & Em & _).
+  assert (Hl : length (c_q c') = length rst).
+  { rewrite <- (map_length key), Q2, map_length; reflexivity. }
+  assert (Hlq : length (c_q (e_ch S)) = (length popped + length rst)%nat).
+  { rewrite Q1, app_length; reflexivity. }
+  assert (Hlp : length (e_sub S) = (length pre + length (c_q (e_ch S)))%nat).
+  { rewrite <- (stamped_length o (e_sub S) 0), Hq, app_length, map_length; reflexivity. }
+  (* every index popped by this acknowledgement had been handed over *)
+  assert (Hnew : forall i, (length pre <= i < length pre + length popped)%nat -> (i < length (e_del R))%nat).
+  { intros i Hi.
+    set (j := (i - length pre)%nat).
+    assert (Hj : (j < length popped)%nat) by (unfold j; lia).
+    destruct (nth_error popped j) as [x|] eqn:Ex; [|apply nth_error_None in Ex; lia].
+    assert (Hst : nth_error (stamped o 0 (e_sub S)) (length pre + j) = Some (key x)).
+    { rewrite Hq, nth_error_app2 by lia. replace (length pre + j - length pre)%nat with j by lia.
+      rewrite Q1, map_app, nth_error_app1 by (rewrite map_length; lia).
+      rewrite nth_error_map, Ex. reflexivity. }
+    apply stamped_nth in Hst. destruct Hst as [Hfst _]. cbn [key fst] in Hfst.
+    pose proof (Q3 x (nth_error_In _ _ Ex)) as Hless.
+    destruct Hb as (k & Hk & Hknr & Hb).
+    assert (Hdel : (length (e_del R) <= length (e_sub S))%nat).
+    { rewrite Hp, app_length; lia. }
+    assert (Hnear : -32768 < Z.of_nat (length pre + j) - Z.of_nat k < 32768).
+    { apply (Hb (length pre + j)%nat). lia. }
+    replace (Z.of_nat (0 + (length pre + j))) with (Z.of_nat (length pre + j)) in Hfst by (f_equal; lia).
+    rewrite Hfst, Hknr, seq_less_near in Hless by exact Hnear.
+    unfold j in *. lia. }
+  constructor; ep_simpl; auto.
+  - rewrite A; exact Hns.
+  - exists (pre ++ map key popped). rewrite Hq, Q1, map_app, Q2, app_assoc. reflexivity.
+  - exists rest; exact Hp.
+  - intros p b Hin Hbody. apply in_app_or in Hin as [Hin|Hin]; [eauto|].
+    rewrite Hq. apply in_or_app; right. destruct (Em p Hin) as [_ Y]. auto.
+  - intros i Hin. apply in_app_or in Hin as [Hin|Hin]; [auto|].
+    unfold acked_range in Hin. apply in_seq in Hin. apply Hnew. lia.
+  - intros Hd. specialize (Hbase Hd).
+    destruct popped as [|x0 pp]; [simpl in *; lia|].
+    assert ((length pre + length (x0 :: pp) - 1 < length (e_del R))%nat) by (apply Hnew; simpl; lia).
+    simpl in *. lia.
+Qed.
+
+Lemma deliver_receiver_fresh o S R pk now fj rc R' ob :
+  dir_inv o S R -> In pk (e_sent S) -> fresh_data o S R pk ->
+  ep_deliver false R pk now fj rc = (R', ob) -> dir_inv o S R'.
+Proof.
+  intros [Hns Hq Hnr [rest Hp] HsS HsR Hack Hbase] Hpk Hb H. unfold ep_deliver in H.
+  destruct (dispatch false (e_f R) (e_ch R) pk now fj rc) as [[[c' o'] er] h] eqn:E.
+  inversion H; subst; clear H.
+  apply dispatch_repaired_spec in E. destruct E as (_ & _ & Em & Hbody).
+  assert (Hdel : (length (e_del R) <= length (e_sub S))%nat).
+  { rewrite Hp, app_length; lia. }
+  (* the new delivery log, its length, and the prefix property *)
+  set (del' := match k_body pk with
+               | Some b => if h then e_del R ++ [b] else e_del R
+               | None => e_del R end).
+  assert (Hnew : c_nr c' = u16 (o + Z.of_nat (length del')) /\
+                 (exists rest', e_sub S = del' ++ rest') /\
+                 (length (e_del R) <= length del')%nat).
+  { unfold del'. destruct (k_body pk) as [b|] eqn:Eb.
+    - destruct Hbody as [Hh Hc]. destruct h.
+      + symmetry in Hh. apply Z.eqb_eq in Hh.
+        destruct (Hb b Eb) as (j & Hj & Hfst & Hnth & Hnear).
+        rewrite Hh, Hnr in Hfst. symmetry in Hfst. apply u16_inj_near in Hfst; [|lia].
+        assert (j = length (e_del R)) by lia. subst j.
+        rewrite Hp, nth_error_app2, Nat.sub_diag in Hnth by lia.
+        destruct rest as [|b' rest']; simpl in Hnth; [discriminate|]. inversion Hnth; subst b'.
+        splits.
+        * rewrite Hc, Hnr, u16_succ, app_length. simpl. f_equal. lia.
+        * exists rest'. rewrite Hp, <- app_assoc. reflexivity.
+        * rewrite app_length; lia.
+      + splits; [rewrite Hc; exact Hnr | exists rest; exact Hp | lia].
+    - destruct Hbody as [_ Hc]. splits; [rewrite Hc; exact Hnr | exists rest; exact Hp | lia]. }
+  destruct Hnew as (N1 & N2 & N3).
+  constructor; ep_simpl; auto.
+  - intros p Hin. apply in_app_or in Hin as [Hin|Hin].
+    + destruct (HsR p Hin) as (k & Hk & Hknr). exists k. split; [lia|exact Hknr].
+    + destruct (Em p Hin) as [X _]. exists (length (e_del R)). split; [lia|].
+      rewrite X; exact Hnr.
+  - intros i Hin. specialize (Hack i Hin). lia.
+  - intros Hd. specialize (Hbase Hd). lia.
+Qed.
+
 (* ---- the pair ---- *)
 Definition sys_inv (oa ob : Z) (s : sys) : Prop :=
   dir_inv oa (s_a s) (s_b s) /\ dir_inv ob (s_b s) (s_a s).
@@ -2021,4 +2134,117 @@ Proof.
       cbn [att_incs p_ns p_body p_att map pkey k_ns k_body key].
       rewrite !Z.eqb_refl. cbn [andb negb].
       assert (p_att p + 1 =? p_att p = false) as -> by lia. rewrite (IH _ _ _ _ _ _ E). reflexivity.
+Qed.
+
+(* ================= exactly once for histories of any length, under the packet-lifetime hypothesis ================= *)
+Definition fresh_step (oa ob : Z) (s : sys) (ev : event) : Prop :=
+  match ev with
+  | Deliver x idx _ _ _ =>
+      match nth_error (e_sent (ep s (peer x))) idx with
+      | Some pk =>
+          match x with
+          | SA => fresh_ack oa (s_a s) (s_b s) pk /\ fresh_data ob (s_b s) (s_a s) pk
+          | SB => fresh_ack ob (s_b s) (s_a s) pk /\ fresh_data oa (s_a s) (s_b s) pk
+          end
+      | None => True
+      end
+  | _ => True
+  end.
+Fixpoint fresh_run (oa ob : Z) (s : sys) (evs : list event) : Prop :=
+  match evs with
+  | [] => True
+  | ev :: r => fresh_step oa ob s ev /\ fresh_run oa ob (fst (step false s ev)) r
+  end.
+
+Lemma step_inv_fresh oa ob s ev :
+  sys_inv oa ob s -> is_inject ev = false -> fresh_step oa ob s ev -> sys_inv oa ob (fst (step false s ev)).
+Proof.
+  intros [IA IB] Hh Hf.
+  destruct ev as [x body sid now fj rf|x idx now fj rc|x p now fj rc|x now drops|x w]; try discriminate; unfold step.
+  - destruct (rf && (0 <? e_dead (ep s x))%nat); [split; assumption|].
+    destruct (ep_submit (ep s x) body sid now fj) as [e ob'] eqn:E. destruct x; simpl in *; split;
+      eauto using submit_sender, submit_receiver.
+  - cbn [fresh_step] in Hf.
+    destruct (nth_error (e_sent (ep s (peer x))) idx) as [p|] eqn:En; [|split; assumption].
+    apply nth_error_In in En.
+    destruct (ep_deliver false (ep s x) p now fj rc) as [e ob'] eqn:E.
+    destruct x; destruct Hf as [F1 F2]; simpl in *; split.
+    + eapply deliver_sender_fresh; eauto.
+    + eapply deliver_receiver_fresh; eauto.
+    + eapply deliver_receiver_fresh; eauto.
+    + eapply deliver_sender_fresh; eauto.
+  - destruct (ep_tick (ep s x) now drops) as [e ob'] eqn:E. destruct x; simpl in *; split;
+      eauto using tick_sender, tick_receiver.
+  - destruct (ep_setwin (ep s x) w) as [e ob'] eqn:E. destruct x; simpl in *; split;
+      eauto using setwin_sender, setwin_receiver.
+Qed.
+
+Lemma run_inv_fresh oa ob : forall evs s,
+  sys_inv oa ob s -> honest evs = true -> fresh_run oa ob s evs -> sys_inv oa ob (run false s evs).
+Proof.
+  induction evs as [|ev r IH]; intros s Hi Hh Hf; simpl in *; [exact Hi|].
+  apply andb_true_iff in Hh as [H1 H2]. apply negb_true_iff in H1. destruct Hf as [F1 F2].
+  apply IH; auto. apply step_inv_fresh; auto.
+Qed.
+
+(* EXACTLY ONCE, IN ORDER for histories of ANY length (any number of submissions, any number of 16-bit wraps), provided
+   every delivered packet is fresh at the moment it is delivered. *)
+Lemma exactly_once_unbounded ai am ar az aw bi bm br bz bw oa ob evs :
+  honest evs = true ->
+  fresh_run oa ob (init_sys (ai, am, ar, az, aw) (bi, bm, br, bz, bw) oa ob) evs ->
+  let s := run false (init_sys (ai, am, ar, az, aw) (bi, bm, br, bz, bw) oa ob) evs in
+  (exists rest, e_sub (s_a s) = e_del (s_b s) ++ rest) /\
+  (exists rest, e_sub (s_b s) = e_del (s_a s) ++ rest) /\
+  (forall i, In i (e_acked (s_a s)) -> (i < length (e_del (s_b s)))%nat) /\
+  (forall i, In i (e_acked (s_b s)) -> (i < length (e_del (s_a s)))%nat) /\
+  (forall x, e_dead (ep s x) = 0%nat ->
+     (length (e_sub (ep s x)) - length (c_q (e_ch (ep s x))) <= length (e_del (ep s (peer x))))%nat).
+Proof.
+  intros Hh Hf s.
+  assert (I : sys_inv oa ob s) by (apply run_inv_fresh; [apply init_inv|exact Hh|exact Hf]).
+  destruct I as [IA IB]. splits.
+  - apply (di_prefix _ _ _ IA).
+  - apply (di_prefix _ _ _ IB).
+  - apply (di_acked _ _ _ IA).
+  - apply (di_acked _ _ _ IB).
+  - intros x Hd. destruct x; simpl in *; [apply (di_base _ _ _ IA Hd)|apply (di_base _ _ _ IB Hd)].
+Qed.
+
+(* the hypothesis is implied by the old bound: with fewer than 2^15 submissions per direction every packet is fresh *)
+Lemma bounded_is_fresh_data o S R pk :
+  dir_inv o S R -> Z.of_nat (length (e_sub S)) < 32768 -> In pk (e_sent S) -> fresh_data o S R pk.
+Proof.
+  intros [_ _ _ [rest Hp] HsS _ _ _] Hb Hin b Eb.
+  assert ((length (e_del R) <= length (e_sub S))%nat) by (rewrite Hp, app_length; lia).
+  pose proof (HsS pk b Hin Eb) as Hs. apply stamped_in in Hs. destruct Hs as (j & Hj & Hfst & Hnth).
+  cbn [fst snd] in Hfst, Hnth. exists j. splits; auto; try lia.
+Qed.
+
+Lemma bounded_is_fresh_ack o S R pk :
+  dir_inv o S R -> Z.of_nat (length (e_sub S)) < 32768 -> In pk (e_sent R) -> fresh_ack o S R pk.
+Proof.
+  intros [_ _ _ [rest Hp] _ HsR _ _] Hb Hin.
+  assert ((length (e_del R) <= length (e_sub S))%nat) by (rewrite Hp, app_length; lia).
+  destruct (HsR pk Hin) as (k & Hk & Hknr). exists k. splits; auto. intros h Hh. lia.
+Qed.
+
+Lemma bounded_run_is_fresh oa ob : forall evs s,
+  sys_inv oa ob s -> honest evs = true -> bounded (run false s evs) -> fresh_run oa ob s evs.
+Proof.
+  induction evs as [|ev r IH]; intros s Hi Hh Hb; simpl in *; [exact I|].
+  apply andb_true_iff in Hh as [H1 H2]. apply negb_true_iff in H1.
+  assert (Bs : bounded s).
+  { destruct Hb as [BA BB]. split.
+    - pose proof (run_sub_mono false r (fst (step false s ev)) SA).
+      pose proof (step_sub_mono false s ev SA). simpl in *. lia.
+    - pose proof (run_sub_mono false r (fst (step false s ev)) SB).
+      pose proof (step_sub_mono false s ev SB). simpl in *. lia. }
+  split.
+  - destruct Hi as [IA IB]. destruct Bs as [BA BB].
+    destruct ev as [x body sid now fj rf|x idx now fj rc|x p now fj rc|x now drops|x w]; cbn [fresh_step]; auto.
+    destruct (nth_error (e_sent (ep s (peer x))) idx) as [pk|] eqn:En; [|exact I].
+    apply nth_error_In in En.
+    destruct x; simpl in En; split;
+      eauto using bounded_is_fresh_data, bounded_is_fresh_ack.
+  - apply IH; auto. apply step_inv; auto.
 Qed.
